@@ -148,7 +148,13 @@ def run_concrete(u, sk, seed=0, sizes=None, values=None, numbers=None, positions
     W = ConcWorld(sizes=sizes, seed=seed, fill=fill if (values or numbers) else None, default_size=None, positions=positions, subsets=subsets)
     try:
         u.run(W, sk)
-        return {"status": "pass", "checked": W.checked, "inputs": None}
+        checked = W.checked
+        # the same scenario once more in the same process: state that survives a call (mutable default arguments,
+        # module-level caches, memoised names) makes the second run differ from the first
+        W = ConcWorld(sizes=sizes, seed=seed, fill=fill if (values or numbers) else None, default_size=None, positions=positions, subsets=subsets)
+        W.inputs["history"] = "second run of the same scenario in the same process"
+        u.run(W, sk)
+        return {"status": "pass", "checked": checked, "inputs": None}
     except ContractViolation as v:
         return {"status": "fail", "obligation": v.name, "detail": v.detail, "seed": seed, "inputs": W.inputs, "sizes": W.used_sizes()}
     except core.PathInfeasible:
